@@ -265,3 +265,41 @@ def default_space(grid_object_types, grid_object_colors, o):
     ensures('total', lambda: returned() and ghost_calls(MKCAT) == 1 and result() is ghost_result(MKCAT, 0))
     ensures('every-member-encoding-lies-inside-the-declared-bounds', lambda: all(
         0 <= enc[k] and enc[k] <= ghost_arg(MKCAT, 0, 0)[k] for k in [0, 1, 2]))
+
+
+@lemma(args={'s': 'State', 'action': 'Action'}, props=['C03', 'C15', 'C16'])
+def encodings_follow_in_place_changes(s, action):
+    """a door opened in place by a step is encoded (and compares) like a door built open: derived indices follow the
+    attribute they are derived from"""
+    from gym_gridverse.envs.transition_functions import actuate_door, transition_with_copy
+    from gym_gridverse.envs.utils import get_next_position
+    from gym_gridverse.grid_object import Door
+    from gym_gridverse.representations.representation import default_grid_object_representation_convert
+    if in_grid(s.grid, s.agent.position):
+        n = transition_with_copy(actuate_door, s, action)
+        p = front(n)
+        if in_grid(n.grid, p):
+            o = n.grid[p]
+            if isinstance(o, Door):
+                fresh = Door(o.state, o.color)
+                check('status-index-follows-the-status', lambda: o.state_index == o.state.value)
+                check('equal-to-a-door-built-in-that-status', lambda: o == fresh and hash(o) == hash(fresh))
+                check('encoded-like-a-door-built-in-that-status', lambda: vec_eq(
+                    default_grid_object_representation_convert(o), default_grid_object_representation_convert(fresh)))
+
+
+@lemma(args={'status': 'DoorStatus', 'status2': 'DoorStatus', 'color': 'Color'}, props=['C03', 'C10', 'C15', 'C16'])
+def door_indices_follow_its_status(status, status2, color):
+    """the dynamics change a door's status by assignment (`door.state = ...`): everything derived from the status
+    must follow it, as for a door built in the new status"""
+    from gym_gridverse.grid_object import Door
+    from gym_gridverse.representations.representation import default_grid_object_representation_convert
+    d = Door(status, color)
+    d.state = status2
+    fresh = Door(status2, color)
+    check('status-index-follows-the-status', lambda: d.state_index == status2.value and d.state is status2)
+    check('flags-follow-the-status', lambda: d.blocks_movement == fresh.blocks_movement
+          and d.blocks_vision == fresh.blocks_vision and d.is_open == fresh.is_open and d.is_locked == fresh.is_locked)
+    check('equal-to-a-door-built-in-that-status', lambda: d == fresh and hash(d) == hash(fresh))
+    check('encoded-like-a-door-built-in-that-status', lambda: vec_eq(
+        default_grid_object_representation_convert(d), default_grid_object_representation_convert(fresh)))
